@@ -157,7 +157,20 @@ fn short(s: &str) -> String {
     format!("epoch{}:{}", parts.get(2).unwrap_or(&"?"), parts.get(3).map(|x| &x[..8.min(x.len())]).unwrap_or("?"))
 }
 
-pub fn known_trigger(_w: &World, _rec: &StepRecord, _clause: &str) -> Option<String> {
+pub fn known_trigger(w: &World, rec: &StepRecord, _clause: &str) -> Option<String> {
+    // KF-C20-1: the client re-joined a group through a second invitation (its MLS state is
+    // replaced); the snapshots taken under the replaced state are not discarded
+    let node = rec.step.node;
+    for g in 0..w.groups.len() {
+        let accepts = w
+            .history
+            .iter()
+            .filter(|r| r.step.node == node && r.class == "ok" && matches!(&r.step.op, Op::AcceptWelcome { w: wr } if w.w_index.get(wr).map(|i| w.welcomes[*i].g == g).unwrap_or(false)))
+            .count();
+        if accepts >= 2 {
+            return Some("KF-C20-1".into());
+        }
+    }
     None
 }
 
